@@ -28,12 +28,23 @@ func watchdog() {
 	for {
 		time.Sleep(200 * time.Millisecond)
 		n := OpCounter.Load()
-		if !InOp.Load() || n != last {
-			last, since = n, time.Now()
-			continue
+		// self-test of the driver's handling of a watchdog stop that is not a hang: $VERIF_TEST_STALL names a marker
+		// file; the first process that finds it missing creates it and stops as if a call had hung
+		fake := false
+		if mf := os.Getenv("VERIF_TEST_STALL"); mf != "" && n > 2000 {
+			if _, err := os.Stat(mf); err != nil {
+				os.WriteFile(mf, []byte("x"), 0o644)
+				fake = true
+			}
 		}
-		if time.Since(since) < 3*time.Second {
-			continue
+		if !fake {
+			if !InOp.Load() || n != last {
+				last, since = n, time.Now()
+				continue
+			}
+			if time.Since(since) < 3*time.Second {
+				continue
+			}
 		}
 		c := CurCase.Load()
 		step := int(CurStep.Load())
